@@ -258,9 +258,9 @@ func (t *Tree) parseInnerExpr() (Expr, error) {
 	case tokenHashOpen:
 		els := []*KeyValueExpr{}
 		for {
-			nxt := t.peek()
+			nxt := t.peekNonSpace()
 			if nxt.tokenType == tokenHashClose {
-				t.next()
+				t.nextNonSpace()
 				break
 			}
 			keyExpr, err := t.parseExpr()
@@ -276,7 +276,7 @@ func (t *Tree) parseInnerExpr() (Expr, error) {
 				return nil, err
 			}
 			els = append(els, NewKeyValueExpr(keyExpr, valExpr, nxt.Pos))
-			nxt = t.peek()
+			nxt = t.peekNonSpace()
 			if nxt.tokenType == tokenPunctuation {
 				_, err := t.expectValue(tokenPunctuation, ",")
 				if err != nil {
@@ -289,9 +289,9 @@ func (t *Tree) parseInnerExpr() (Expr, error) {
 	case tokenArrayOpen:
 		els := []Expr{}
 		for {
-			nxt := t.peek()
+			nxt := t.peekNonSpace()
 			if nxt.tokenType == tokenArrayClose {
-				t.next()
+				t.nextNonSpace()
 				break
 			}
 			expr, err := t.parseExpr()
@@ -299,7 +299,7 @@ func (t *Tree) parseInnerExpr() (Expr, error) {
 				return nil, err
 			}
 			els = append(els, expr)
-			nxt = t.peek()
+			nxt = t.peekNonSpace()
 			if nxt.tokenType == tokenPunctuation {
 				_, err := t.expectValue(tokenPunctuation, ",")
 				if err != nil {
@@ -387,7 +387,7 @@ func (t *Tree) parseInnerExpr() (Expr, error) {
 func (t *Tree) parseFunc(name *NameExpr) (Expr, error) {
 	var args []Expr
 	for {
-		switch tok := t.peek(); tok.tokenType {
+		switch tok := t.peekNonSpace(); tok.tokenType {
 		case tokenEOF:
 			return nil, newUnexpectedEOFError(tok)
 
